@@ -1159,36 +1159,72 @@ Proof.
   apply IH; auto. eapply sequiv_trans; [exact He'|]. apply spec_step_equiv; auto.
 Qed.
 
-(** the answer of the structured model is the specification's answer on its abstraction *)
+(** the answer of the structured model is the specification's answer on its abstraction,
+    provided every in-order head sample below Head.MinTime() that the head querier can still
+    see (straddling chunk) is also visible in a block *)
+Definition dead_covered (s : state) : Prop :=
+  forall i y, in_chunks (ms_chunks (h_series (s_head s) i)) y -> st y < h_minT (s_head s) ->
+              covered (h_tomb (s_head s) i) (st y) = false -> vis_blocks (s_blocks s) i y.
+
 Lemma query_abs c s mint maxt sel :
-  blocks_inv c (s_blocks s) -> query s mint maxt sel = spec_query (abs s) mint maxt sel.
+  blocks_inv c (s_blocks s) -> dead_covered s ->
+  answer_equiv (query s mint maxt sel) (spec_query (abs s) mint maxt sel).
 Proof.
-  intros [Hr Hu]. unfold query, spec_query, query_of. apply flat_map_ext_in. intros i _.
-  assert (E : filter (fun x => in_rng mint maxt (st x)) (cands s mint maxt i) =
-              filter (fun x => in_rng mint maxt (st x)) (abs s i)).
-  { unfold cands, abs, head_cands. rewrite !filter_app, !filter_filter. f_equal; [f_equal|].
-    - apply filter_ext. intros x. destruct (in_rng mint maxt (st x)) eqn:R; [|rewrite !andb_false_r; auto].
-      apply in_rng_iff in R. rewrite Z.max_id. f_equal. f_equal.
-      apply eq_true_iff_eq. rewrite !Z.leb_le. lia.
-    - rewrite !filter_flat_map. apply flat_map_ext_in. intros b Hb.
-      destruct (b_overlaps b mint maxt) eqn:E; auto. simpl. symmetry. apply filter_nil_iff.
-      intros x Hx. apply in_block_cands in Hx. destruct Hx as [Hx _]. specialize (Hr b i x Hb Hx).
-      unfold b_overlaps in E. apply andb_false_iff in E. rewrite Z.leb_gt, Z.ltb_ge in E.
-      destruct (in_rng mint maxt (st x)) eqn:R; auto. apply in_rng_iff in R. lia. }
-  rewrite E. reflexivity.
+  intros [Hr Hu] Hdc. unfold query, spec_query.
+  assert (E : forall i x, mint <= st x <= maxt -> (In x (cands s mint maxt i) <-> In x (abs s i))).
+  { intros i x Hx. rewrite in_abs. unfold cands. rewrite in_app_iff, in_flat_map.
+    assert (EB : (exists b, In b (s_blocks s) /\ In x (if b_overlaps b mint maxt then block_cands b i else []))
+                 <-> vis_blocks (s_blocks s) i x).
+    { unfold vis_blocks. split.
+      - intros [b [Hb Hin]]. destruct (b_overlaps b mint maxt); [|inversion Hin].
+        exists b. split; auto. apply in_block_cands; auto.
+      - intros [b [Hb Hv]]. exists b. split; auto.
+        replace (b_overlaps b mint maxt) with true; [apply in_block_cands; auto|].
+        symmetry. destruct Hv as [Hd _]. specialize (Hr b i x Hb Hd). unfold b_overlaps.
+        apply andb_true_iff. rewrite Z.leb_le, Z.ltb_lt. lia. }
+    rewrite EB. unfold head_cands_q, head_gate.
+    destruct ((h_minT (s_head s) <=? maxt) || negb (is_nil (ms_ooo (h_series (s_head s) i)))) eqn:G.
+    - rewrite in_app_iff, !filter_In, in_io, !negb_true_iff. unfold vis_io, vis_ooo. split.
+      + intros [[[Hin Hc]|[Hin Hc]]|Hb]; auto.
+        destruct (Z_lt_le_dec (st x) (h_minT (s_head s))) as [Hlt|Hge]; auto.
+      + intros [(Hin & Hm & Hc)|[[Hin Hc]|Hb]]; auto.
+    - apply orb_false_iff in G. destruct G as [G1 G2]. apply Z.leb_gt in G1.
+      apply negb_false_iff in G2. unfold vis_io, vis_ooo. split.
+      + intros [[]|Hb]; auto.
+      + intros [(Hin & Hm & Hc)|[[Hin Hc]|Hb]]; auto; [lia|].
+        destruct (ms_ooo (h_series (s_head s) i)); [inversion Hin|discriminate]. }
+  unfold query_of, answer_equiv. induction sel as [|i sel IH]; simpl; [constructor|].
+  assert (E' : forall x, In x (filter (fun x => in_rng mint maxt (st x)) (cands s mint maxt i)) <->
+                         In x (filter (fun x => in_rng mint maxt (st x)) (abs s i))).
+  { intros x. rewrite !filter_In, in_rng_iff. split; intros [A B]; split; auto; apply (E i x B); auto. }
+  destruct (filter (fun x => in_rng mint maxt (st x)) (cands s mint maxt i)) as [|x1 l1] eqn:E1;
+  destruct (filter (fun x => in_rng mint maxt (st x)) (abs s i)) as [|x2 l2] eqn:E2; simpl; auto.
+  - exfalso. apply (E' x2). left; auto.
+  - exfalso. apply (E' x1). left; auto.
+  - constructor; auto. simpl. split; auto. apply series_answer_equiv. exact E'.
+Qed.
+
+Lemma answer_equiv_trans a b c0 : answer_equiv a b -> answer_equiv b c0 -> answer_equiv a c0.
+Proof.
+  unfold answer_equiv. intros H. revert c0. induction H as [|p q a b [Hf Hp] Hr IH]; intros c0 H2; inversion H2; subst; constructor.
+  - destruct H1 as [Hf' Hp']. split; [congruence|].
+    clear -Hp Hp'. unfold pts_equiv in *. revert Hp'. generalize (snd y). induction Hp as [|u v l1 l2 [E1 E2] _ IH]; intros l3 H; inversion H; subst; constructor.
+    + destruct H2 as [E3 E4]. split; [congruence|]. intros w. rewrite E2. apply E4.
+    + apply IH; auto.
+  - apply IH; auto.
 Qed.
 
 Theorem refinement_partial c ops :
-  wf_cfg c -> wf_ops c state0 ops ->
+  wf_cfg c -> wf_ops c state0 ops -> dead_covered (run c ops) ->
   forall mint maxt sel,
     answer_equiv (query (run c ops) mint maxt sel)
                  (spec_query (spec_run (map spec_of_op ops)) mint maxt sel).
 Proof.
-  intros Hw Hwf mint maxt sel.
+  intros Hw Hwf Hdc mint maxt sel.
   destruct (run_refines c Hw ops state0 sempty (inv_state0 c)) as [[Hh Hb] He]; auto.
   { intros i x. cbn. tauto. }
-  unfold run. rewrite (query_abs c _ mint maxt sel Hb). unfold spec_query, spec_run.
-  apply query_of_equiv. exact He.
+  eapply answer_equiv_trans; [apply (query_abs c _ mint maxt sel Hb Hdc)|].
+  unfold spec_query, spec_run. apply query_of_equiv. exact He.
 Qed.
 
 Theorem abs_run c ops :
@@ -1206,4 +1242,17 @@ Lemma answer_equiv_shape a b : answer_equiv a b -> shape a = shape b.
 Proof.
   unfold shape. induction 1 as [|p q a b [Hf Hp] Hr IH]; simpl; auto.
   rewrite IH, Hf. f_equal. f_equal. clear -Hp. induction Hp as [|x y l1 l2 [E _] _ IH]; simpl; congruence.
+Qed.
+
+(** a decidable sufficient condition for dead_covered: no in-order head sample below minTime *)
+Definition dead_free (c : cfg) (s : state) : bool :=
+  forallb (fun i => forallb (fun y => h_minT (s_head s) <=? st y) (io_samples (h_series (s_head s) i))) (universe c).
+
+Lemma dead_free_covered c s : inv c s -> dead_free c s = true -> dead_covered s.
+Proof.
+  intros [Hh _] Hdf i y Hin Hlt _. exfalso.
+  destruct (in_dec Z.eq_dec i (universe c)) as [Hi|Hi].
+  - unfold dead_free in Hdf. rewrite forallb_forall in Hdf. specialize (Hdf i Hi).
+    rewrite forallb_forall in Hdf. specialize (Hdf y (proj2 (in_io _ _) Hin)). apply Z.leb_le in Hdf. lia.
+  - destruct (hi_univ _ _ Hh i Hi) as [A _]. destruct Hin as [c0 [Hc0 _]]. rewrite A in Hc0. inversion Hc0.
 Qed.
